@@ -4,6 +4,7 @@ go 1.16
 
 require (
 	github.com/bnb-chain/tss-lib/v2 v2.0.0
+	github.com/btcsuite/btcd/btcec/v2 v2.3.2
 	github.com/btcsuite/btcutil v1.0.2
 	golang.org/x/crypto v0.13.0
 	google.golang.org/protobuf v1.31.0
